@@ -48,6 +48,9 @@ class Ops:
     def reparse(self, o):
         self.lines.append('E %d' % o)
 
+    def tostring(self, o):
+        self.lines.append('T %d' % o)
+
     def canparse(self, s, base=None):
         if base is None:
             self.lines.append('C %s' % hx(s))
